@@ -38,7 +38,7 @@ impl<'a> Reader<'a> {
             result.push(c);
             self.begin += 1;
             read_something = true;
-            if c == '\r' && self.peek() == b'\n' {
+            if c == '\r' && self.has_byte() && self.peek() == b'\n' {
                 result.pop().unwrap();
                 self.begin += 1;
                 break;
@@ -107,6 +107,14 @@ impl<'a> Reader<'a> {
                 self.refill();
             }
         }
+    }
+
+    /// true if another input byte is available (refills if needed); `peek` is only meaningful then
+    fn has_byte(&mut self) -> bool {
+        if self.begin == self.end {
+            self.refill();
+        }
+        !self.eof
     }
 
     fn peek(&mut self) -> u8 {
